@@ -272,6 +272,11 @@ class SymExec:
                 same = (a is None) and (b is None)
                 return int(same if isinstance(e.ops[0], ast.Is) else not same)
             if isinstance(a, BV) and isinstance(b, BV):
+                if a.is_const() and b.is_const():
+                    av, bv = a.value(), b.value()
+                    r = {ast.Eq: av == bv, ast.NotEq: av != bv, ast.Lt: av < bv, ast.LtE: av <= bv, ast.Gt: av > bv, ast.GtE: av >= bv}.get(type(e.ops[0]))
+                    if r is not None:
+                        return int(r)
                 if b.is_const() and a.width() <= 1 and b.value() in (0, 1):
                     bit = a.bit(0)
                     want1 = b.value() == 1
@@ -279,7 +284,7 @@ class SymExec:
                         return bit if want1 else bit ^ 1
                     if isinstance(e.ops[0], ast.NotEq):
                         return bit ^ 1 if want1 else bit
-                if a.is_const() and b.width() <= 1 and a.value() in (0, 1):
+                if a.is_const() and b.width() <= 1 and a.value() in (0, 1) and isinstance(e.ops[0], (ast.Eq, ast.NotEq)):
                     return self.cond_bit(ast.Compare(left=e.comparators[0], ops=e.ops, comparators=[e.left]), env)
                 if a.is_const() and b.is_const():
                     av, bv = a.value(), b.value()
@@ -319,9 +324,17 @@ class SymExec:
         if isinstance(e, ast.Constant):
             if e.value is None:
                 return None
-            if isinstance(e.value, bool) or not isinstance(e.value, int):
+            if isinstance(e.value, bool):
+                return e.value
+            if not isinstance(e.value, int):
                 raise Top(f"constant {e.value!r}")
             return BV.const(e.value)
+        if isinstance(e, ast.Compare) and len(e.ops) != 1:
+            raise Top("chained comparison")
+        if isinstance(e, ast.Compare) or (isinstance(e, ast.UnaryOp) and isinstance(e.op, ast.Not)):
+            # a comparison used as a value: its truth bit
+            c = self.cond_bit(e, env)
+            return bool(c) if c in (0, 1) else BV([c])
         if isinstance(e, ast.BoolOp):
             # python semantics: `a or b` = a if truthy else b ; `a and b` = b if a truthy else a
             cur = self.ev(e.values[0], env)
